@@ -267,15 +267,33 @@ Definition apply_oracles (gone : string -> bool) (vers : list string) (ign : str
           let removedp := nonroot (rd_removed d) in
           chk (forallb (fun p => pmem p cfgnodes) (nonroot (rd_modified d ++ rd_added d)%list))
               "prop C02 only fields of the configuration are added or changed" @@
-          chk (forallb (fun p =>
-                          existsb (fun q => aband q) (prefixes p)
-                          || (negb (existsb (fun pn : path * bool => snd pn && patheqb (fst pn) p) (nodes s tr lv))
-                              && forallb (fun pn : path * bool =>
-                                            negb (snd pn) || negb (proper_prefix p (fst pn)) || pmem (fst pn) removedp)
-                                         (nodes s tr lv))
-                          || existsb (fun q => negb (Nat.eqb (List.length q) (List.length p)) && kind_changed s tr lv cfg q) (prefixes p))
-                       removedp)
-              "prop C02 only abandoned fields (or containers emptied by that, or fields beneath a kind change) are removed" @@
+          (let empty_unowned (q : path) : bool :=
+             match resolve_path s tr lv q with
+             | Some (RNode _ (VMap [])) | Some (RNode _ (VList [])) =>
+                 negb (existsb (fun o : string * (string * bool * list path) => pmem q (snd (snd o))) mobs)
+             | _ => false
+             end in
+           let ok (lenient : bool) (p : path) : bool :=
+             existsb (fun q => aband q) (prefixes p)
+             || (negb (existsb (fun pn : path * bool => snd pn && patheqb (fst pn) p) (nodes s tr lv))
+                 && forallb (fun pn : path * bool =>
+                               negb (snd pn) || negb (proper_prefix p (fst pn)) || pmem (fst pn) removedp
+                               || (lenient && empty_unowned (fst pn)))
+                            (nodes s tr lv))
+             || existsb (fun q => negb (Nat.eqb (List.length q) (List.length p)) && kind_changed s tr lv cfg q) (prefixes p)
+             || (lenient && empty_unowned p
+                 && existsb (fun q => negb (Nat.eqb (List.length q) (List.length p)) && pmem q removedp) (prefixes p)) in
+           let bad := filter (fun p => negb (ok false p)) removedp in
+           let worse := filter (fun p => negb (ok true p)) bad in
+           match bad, worse with
+           | [], _ => []
+           | _ :: _, [] =>
+               ["prop C02 an empty map or list that no manager owns disappears together with the container emptied around it: "
+                  ++ show_sexp (enc_paths bad)]
+           | _, _ :: _ =>
+               ["prop C02 only abandoned fields (or containers emptied by that, or fields beneath a kind change) are removed: "
+                  ++ show_sexp (enc_paths worse)]
+           end) @@
           chk (forallb (fun o : string * (string * bool * list path) =>
                           String.eqb (fst o) mgr ||
                           forallb (fun p =>
